@@ -10,7 +10,7 @@ from engine.cfg import CFG
 from engine.consteval import ConstEval, NotConstant
 from engine.index import AnalysisError, FuncInfo, calls_in, const_str, unparse, walk_no_nested
 from engine.absint import AbsObj, BoundRepoMethods, ModuleEnv
-from engine.pyinterp import Env, Function, Interp, Stub, Unsupported
+from engine.pyinterp import Env, Function, Interp, InterpRaised, Stub, Unsupported
 from rules.common import DAILY_MODEL, method
 
 SEASONS = {"su": "summer", "sh": "shoulder", "wi": "winter"}
@@ -128,6 +128,10 @@ def run(chk):
     chk.not_decided += ["the Gaussian-overlap test itself (ellipsoid_split_filter is replaced by every possible outcome)", "numerical values of the selection criterion (C16 covers the formulas used elsewhere)"]
     r1 = chk.rule("R13.1", "literal options are set partitions; combo_dictionary maps su/sh/wi to the season labels and wd/we/fw to complementary weekday sets from the model's own settings", 8)
     r2 = chk.rule("R13.2", "routing: every candidate's sub-models select each (season, weekday) cell exactly once; key grammar written = key grammar parsed; prediction iterates the stored sub-model keys", 30)
+    from rules import classstate
+    from rules.common import DAILY_MODEL as _DM
+    classstate.report(chk, r2, [chk.repo.cls(*_DM)] + list(chk.res.subclasses(chk.repo.cls(*_DM))), {"combo_dictionary", "seasonal_options", "day_options"},
+                      what="the split vocabulary (season / weekday groups) must be the model's own: here the most recently constructed model decides it for all")
     r3 = chk.rule("R13.3", "every generated candidate is an exact cover; the unsplit model is generated, always kept, and is the baseline of the criterion", 30)
     r4 = chk.rule("R13.4", "forbidden or unsupported splits are never kept: 16 flag combinations x 16 Gaussian outcomes x data scenarios", 700)
     r5 = chk.rule("R13.5", "arg-min: _best_combination returns the first strict minimum of the selection criterion over self.combinations", 6)
@@ -135,55 +139,52 @@ def run(chk):
 
     dm = chk.repo.cls(*DAILY_MODEL)
     init = method(chk, dm, "__init__")
-    ce = ConstEval(chk.res, init.module)
+    # The constructor is interpreted from its AST on an abstract model object (settings replaced by a stand-in carrying one weekday map);
+    # the vocabulary is then read off the object: instance attributes, or class-level literals when the constructor leaves them alone.
+    weekday_maps = [
+        {1: "weekday", 2: "weekday", 3: "weekday", 4: "weekday", 5: "weekday", 6: "weekend", 7: "weekend"},
+        {1: "weekend", 2: "weekday", 3: "weekday", 4: "weekday", 5: "weekday", 6: "weekday", 7: "weekend"},
+        {1: "weekday", 2: "weekday", 3: "weekday", 4: "weekday", 5: "weekend", 6: "weekend", 7: "weekend"},
+    ]
+
+    class _InitSettings(Stub):
+        def __init__(self, me, wm):
+            self.me, self.wm = me, wm
+
+        def _abs_call(self, *a, **k):
+            self.me.settings = NS(weekday_weekend=NS(_num_dict=dict(self.wm)))
+
     lits: Dict[str, Any] = {}
-    for s in walk_no_nested(init.node):
-        if isinstance(s, ast.Assign) and unparse(s.targets[0]) in ("self.seasonal_options", "self.day_options"):
-            try:
-                lits[unparse(s.targets[0])[5:]] = ce.ev(s.value)
-            except NotConstant:
-                pass
-    if set(lits) != {"seasonal_options", "day_options"}:
-        r1.require(False, f"{init.key}|options-literal", init.where(), "cannot establish seasonal_options / day_options: not literals")
-        return
+    combo_dicts = []
+    for wm in weekday_maps:
+        it = Interp()
+        me = _BoundSelf({dm.name, "DailyModel"})
+        me._bind_repo(chk, dm, it, {})
+        me._initialize_settings = _InitSettings(me, wm)
+        try:
+            Function(init.node, ModuleEnv(chk.repo, init.module, it, {"np": NS(nan=float("nan"), inf=float("inf"))}), it)(me)
+            so, do, cd = me.seasonal_options, me.day_options, me.combo_dictionary
+        except (Unsupported, AttributeError) as e:
+            raise AnalysisError(f"{init.key}: cannot establish the split vocabulary, the constructor uses an operation outside the modelled subset: {e}")
+        except InterpRaised as e:
+            r1.require(False, f"{init.key}|constructor-raises", init.where(), f"DailyModel.__init__ raises {e.exc_name} for weekday map {wm}")
+            return
+        if not (isinstance(so, list) and isinstance(do, list) and isinstance(cd, dict)):
+            raise AnalysisError(f"{init.key}: the split vocabulary is not made of plain lists / dicts any more")
+        lits = {"seasonal_options": [list(o) for o in so], "day_options": [list(o) for o in do]}
+        cd = {k: (list(v) if isinstance(v, (list, tuple)) else v) for k, v in cd.items()}
+        combo_dicts.append(cd)
+        ok = cd.get("su") == "summer" and cd.get("sh") == "shoulder" and cd.get("wi") == "winter" and sorted(cd.get("fw", [])) == list(range(1, 8)) \
+            and sorted(cd.get("wd", [])) == sorted(k for k, v in wm.items() if v == "weekday") and sorted(cd.get("we", [])) == sorted(k for k, v in wm.items() if v == "weekend") \
+            and not set(cd.get("wd", [])) & set(cd.get("we", [])) and sorted(cd.get("wd", []) + cd.get("we", [])) == list(range(1, 8))
+        r1.require(ok, f"{init.key}|combo_dictionary|we={sorted(k for k, v in wm.items() if v == 'weekend')}", init.where(),
+                   f"combo_dictionary does not follow the model's own weekday map {wm}: {cd}", sample={"weekday_map": wm, "wd": cd.get("wd"), "we": cd.get("we")})
     for opt in lits["seasonal_options"]:
         parts = [x for p in opt for x in p.split("_")]
         r1.require(sorted(parts) == ["sh", "su", "wi"], f"{init.key}|seasonal:{'/'.join(opt)}", init.where(), f"seasonal option {opt} is not a partition of {{su, sh, wi}}", sample={"option": opt})
     r1.require(len({tuple(sorted(o)) for o in lits["seasonal_options"]}) == 5, f"{init.key}|seasonal-all-five", init.where(), "the five set partitions of three seasons must all be present")
     for opt in lits["day_options"]:
         r1.require(sorted(opt) == ["wd", "we"], f"{init.key}|day:{'/'.join(opt)}", init.where(), f"day option {opt} is not a partition of {{wd, we}}")
-    # combo_dictionary: interpret the statements building it with a settings stub for several weekday maps
-    cd_stmts = [s for s in init.node.body if isinstance(s, ast.Assign) and unparse(s.targets[0]) in ("day_dict", "n_week", "self.combo_dictionary")]
-    if len(cd_stmts) != 3:
-        raise AnalysisError("DailyModel.__init__: combo_dictionary construction changed shape")
-    weekday_maps = [
-        {1: "weekday", 2: "weekday", 3: "weekday", 4: "weekday", 5: "weekday", 6: "weekend", 7: "weekend"},
-        {1: "weekend", 2: "weekday", 3: "weekday", 4: "weekday", 5: "weekday", 6: "weekday", 7: "weekend"},
-        {1: "weekday", 2: "weekday", 3: "weekday", 4: "weekday", 5: "weekend", 6: "weekend", 7: "weekend"},
-    ]
-    combo_dicts = []
-    for wm in weekday_maps:
-        it = Interp()
-        env = Env()
-        holder: Dict[str, Any] = {}
-        selfstub = NS(settings=NS(weekday_weekend=NS(_num_dict=wm)))
-        env.set("self", selfstub)
-        try:
-            for s in cd_stmts:
-                if unparse(s.targets[0]) == "self.combo_dictionary":
-                    holder["cd"] = it.ev(s.value, env)
-                else:
-                    it.exec_stmt(s, env)
-        except Unsupported as e:
-            r1.require(False, f"{init.key}|combo_dictionary-interpretable", init.where(), f"cannot establish combo_dictionary: {e}")
-            return
-        cd = holder["cd"]
-        combo_dicts.append(cd)
-        ok = cd.get("su") == "summer" and cd.get("sh") == "shoulder" and cd.get("wi") == "winter" and sorted(cd.get("fw", [])) == list(range(1, 8)) \
-            and sorted(cd["wd"]) == sorted(k for k, v in wm.items() if v == "weekday") and sorted(cd["we"]) == sorted(k for k, v in wm.items() if v == "weekend") \
-            and not set(cd["wd"]) & set(cd["we"]) and sorted(cd["wd"] + cd["we"]) == list(range(1, 8))
-        r1.require(ok, f"{init.key}|combo_dictionary|we={sorted(k for k, v in wm.items() if v == 'weekend')}", init.where(),
-                   f"combo_dictionary does not follow the model's own weekday map {wm}: {cd}", sample={"weekday_map": wm, "wd": cd.get("wd"), "we": cd.get("we")})
 
     # ------------------------------------------------------------------ interpret _combinations
     comb = method(chk, dm, "_combinations")
